@@ -22,27 +22,46 @@ static void mk_a(void) { for (int i = 0; i < SPL; i++) { char c; A[i] = c; ASSUM
 void h_case(void) { mk_a();
   for (int i = 0; i < SPL; i++) { _Bool flip; char c = A[i]; Bb[i] = (flip && ((c >= 'a' && c <= 'z') || (c >= 'A' && c <= 'Z'))) ? (char)(c ^ 0x20) : c; }
   Bb[SPL] = 0; same_filter("changing letter case does not change the filtered line"); REACH("end"); }
-/* one more blank anywhere except inside the mnemonic (before the separating blank) */
+/* one more blank anywhere except inside the mnemonic: in the leading indentation, next to or behind
+ * the blank that delimits the mnemonic, anywhere in the operands, at the end of a line that has
+ * operands.  (A blank directly behind a mnemonic without operands stays in the filtered text as the
+ * delimiter; that case is h_blank_after_mnemonic, decided on the tokenizer's result.) */
 void h_blank(void) { mk_a(); GHOST_IN(int, g_p); ASSUME(g_p >= 0 && g_p <= SPL);
   int seen_letter = 0, seen_sep = 0, ok = 0;
   for (int i = 0; i < SPL; i++) {
-    if (i == g_p) ok = !seen_letter || seen_sep;          /* leading indentation, or the mnemonic is already delimited */
+    if (i == g_p) ok = !seen_letter || seen_sep || A[i] == ' ';
     char c = A[i];
     if (!seen_letter && c >= 'A' && c <= 'z') seen_letter = 1; else if (seen_letter && c == ' ') seen_sep = 1;
   }
-  if (g_p == SPL) ok = 1;                                  /* trailing blank */
+  if (g_p == SPL) ok = !seen_letter || seen_sep;          /* trailing blank */
   ASSUME(ok);
   for (int i = 0, j = 0; i <= SPL; i++) { if (i == g_p) Bb[j++] = ' '; Bb[j++] = A[i]; }
   same_filter("an extra blank outside the mnemonic does not change the filtered line"); REACH("end"); }
+/* "mnemonic" against "mnemonic " (and with a tab): the filtered texts differ by the trailing
+ * delimiter, the real tokenizer gives the same record */
+void h_blank_after_mnemonic(void) {
+  static char M1[FILTERED_STR_LEN], M2[FILTERED_STR_LEN]; int n; ASSUME(n >= 1 && n <= SPL);
+  for (int i = 0; i < SPL; i++) { char c; ASSUME(c > ' ' && (unsigned char)c <= 0x7e && c != ','); M1[i] = i < n ? c : 0; M2[i] = M1[i]; }
+  M2[n] = ' ';
+  struct instr I1 = {0}, I2 = {0};
+  int r1 = instr_tok(&I1, M1), r2 = instr_tok(&I2, M2);
+  CHECK(r1 == r2, "same tokenizer verdict with and without the trailing blank");
+  for (int i = 0; i < INSTRUCTION_CHAR_LEN; i++) CHECK(I1.instruction[i] == I2.instruction[i], "same mnemonic with and without the trailing blank");
+  CHECK(I1.opd[0].type == I2.opd[0].type && I1.imm == I2.imm && I1.mem_disp == I2.mem_disp, "no operand appears");
+  REACH("end"); }
 /* a trailing comment, % text, CR or LF with anything behind it */
 void h_tail(void) { mk_a();
   for (int i = 0; i < SPL; i++) Bb[i] = A[i];
   char t; ASSUME(t == ';' || t == '%' || t == '\r' || t == '\n'); Bb[SPL] = t;
   for (int i = SPL + 1; i < SPL + 7; i++) { char c; Bb[i] = c; }
   Bb[SPL + 7] = 0; same_filter("comment / line-end and whatever follows do not change the filtered line"); REACH("end"); }
-/* label, section, global and blank lines are skipped: no record, success */
-void h_skip(void) { mk_a(); _Bool kind; GHOST_IN(int, g_p); ASSUME(g_p >= 0 && g_p < SPL);
-  if (kind) { ASSUME(A[g_p] == ':'); }                    /* a label: colon anywhere in the kept text */
+/* label and blank lines are skipped: no record, success.  line_to_instr is used through a contract
+ * that may never be called (requires false): reaching it would fail the obligation. */
+int line_to_instr__never(struct instr *instr_data, char *filtered_asm_str)
+  __CPROVER_requires(0)
+  __CPROVER_assigns();
+void h_skip(void) { mk_a(); _Bool kind; GHOST_IN(int, g_p); ASSUME(g_p >= 1 && g_p < SPL);
+  if (kind) { ASSUME(A[g_p] == ':' && A[0] >= 'A' && A[0] <= 'z'); }   /* a label: name, then a colon anywhere behind its first letter */
   else { for (int i = 0; i < SPL; i++) ASSUME(A[i] == ' ' || A[i] == '\t'); }   /* blank line */
   struct instr I = {0}; int len = -1;
   int rc = str_to_instr(&I, A, &len);
